@@ -255,6 +255,57 @@ theorem filters_are_a_pipeline (fs gs : List Filt) (d : Data) :
     (fs ≠ [] → (filterCalls fs d).head? = some d) :=
   ⟨runFilters_append fs gs d, filterCalls_head fs d⟩
 
+/-- a filter that returns a mapping (or edits in place and returns a true value) never rejects:
+    the mapping — WHATEVER ITS SIZE, the empty one included — is the data the rest of the
+    pipeline and finally the handler get (docs: "the returned dict becomes the new event data") -/
+theorem mapping_result_replaces_data (f : Filt) (hf : f.returnsMapping = true) (d : Data) :
+    ∃ m, f.apply d = some m ∧ (∀ fs, runFilters (f :: fs) d = runFilters fs m) ∧
+      runFilters [f] d = some m := by
+  cases f with
+  | set k v => exact ⟨_, rfl, fun _ => rfl, rfl⟩
+  | del k => exact ⟨_, rfl, fun _ => rfl, rfl⟩
+  | clear => exact ⟨_, rfl, fun _ => rfl, rfl⟩
+  | replace m => exact ⟨_, rfl, fun _ => rfl, rfl⟩
+  | copy a b =>
+    cases h : d.get? a with
+    | none => exact ⟨d, by simp [Filt.apply, h], fun fs => by simp [runFilters, Filt.apply, h],
+        by simp [runFilters, Filt.apply, h]⟩
+    | some v => exact ⟨d.set b v, by simp [Filt.apply, h], fun fs => by simp [runFilters, Filt.apply, h],
+        by simp [runFilters, Filt.apply, h]⟩
+  | accept => simp [Filt.returnsMapping] at hf
+  | reject => simp [Filt.returnsMapping] at hf
+  | ifTruthy k => simp [Filt.returnsMapping] at hf
+  | ifDefined k => simp [Filt.returnsMapping] at hf
+
+/-- in particular the EMPTY mapping: `d.clear(); return d`, `return {}` or a replacement by `{}`
+    at the end of a pipeline that got that far delivers the event with empty data, for every
+    send of every history: the handler IS called (last act of the send) and gets `{}`/`m` -/
+theorem empty_mapping_reaches_handler (k : BKind) (c : Cfg) (out : Val) (vs : List Val) :
+    ∀ r ∈ run k c out vs, ∀ s ∈ r.sends, ∀ fs, (runFilters fs s.raw).isSome →
+      (s.ev.filters = fs ++ [.clear] →
+        s.result = some [] ∧
+        s.acts.getLast? = some (.deliver s.slot s.idx s.ev.dest s.ev.etype [] s.visible)) ∧
+      (∀ m, s.ev.filters = fs ++ [.replace m] →
+        s.result = some m ∧
+        s.acts.getLast? = some (.deliver s.slot s.idx s.ev.dest s.ev.etype m s.visible)) := by
+  intro r hr s hs fs hfs
+  rw [mem_run _ c out vs r hr] at hs
+  have hres := (mem_sends _ c _ _ s hs).2.2.2.1
+  obtain ⟨d', hd'⟩ := Option.isSome_iff_exists.1 hfs
+  refine ⟨fun hf => ?_, fun m hf => ?_⟩
+  · have : s.result = some [] := by
+      rw [hres, hf, runFilters_append, hd']; rfl
+    exact ⟨this, by simp [Sent.acts, this]⟩
+  · have : s.result = some m := by
+      rw [hres, hf, runFilters_append, hd']; rfl
+    exact ⟨this, by simp [Sent.acts, this]⟩
+
+/-- non-vacuity of the two statements above: a block whose only on_output event clears the data -/
+example :
+    ((sendsOf .output 0 (run .cblock { name := "f", onOutput := [⟨"p0", "o0", [.del "value", .clear]⟩] }
+        .undef [Val.int 1, Val.int 1, Val.none])).map (·.result)) = [some [], some []] := by
+  decide +kernel
+
 /-! ### non-vacuity: a concrete history with equal-but-not-identical values -/
 
 /-- `1, True, 1.0, 0, None` on a block with two on_output and one on_every_output event:
